@@ -223,6 +223,10 @@ func (g *Gen) time(t *rapid.T, label string) int64 {
 		return rapid.SampledFrom(MarkerTimes).Draw(t, label+"_marker")*1e9 + 123456789
 	}
 	sec := rapid.Int64Range(0, 7258118400).Draw(t, label+"_s") // 1970..2200
+	if rapid.IntRange(0, 7).Draw(t, label+"_edge") == 0 {
+		// the edges of the usual representations: before the epoch, around 2038 and 2106
+		sec = rapid.SampledFrom([]int64{-1, -86400, -2208988800, 0, 1, 1<<31 - 1, 1 << 31, 1<<32 - 1, 1 << 32}).Draw(t, label+"_edge_s")
+	}
 	ns := rapid.SampledFrom([]int64{0, 1, 999999999, 500000000, 123456789}).Draw(t, label+"_ns")
 	return sec*1e9 + ns
 }
@@ -321,6 +325,11 @@ func (g *Gen) draw1(t *rapid.T, mr *MRunner) Step {
 		h := mr.Slots[s.Slot]
 		size := h.Size()
 		offs := []int64{0, 1, size - 1, size, size + 1, size / 2, -1, size + 700, 511, 512, 513}
+		if rapid.IntRange(0, 5).Draw(t, "far-offset") == 0 {
+			// gaps of whole I/O chunks, whole records and just beside them
+			rec := int64(g.RS) * 512
+			offs = []int64{size + 32768, size + 65536, size + 32767, 32768, 65536, size + rec, size + 2*rec, rec, 2 * rec, rec - 1, rec + 1}
+		}
 		switch op {
 		case "write", "writestring":
 			g.content(t, &s)
